@@ -11,6 +11,7 @@ fn main() {
     let rc = match id.as_str() {
         "C16" => vh::c16::main(mode),
         "C06" => vh::c06::main(mode),
+        "C20" => vh::c20::main(mode),
         _ => {
             eprintln!("unknown property {id}");
             2
